@@ -13,7 +13,7 @@ package main
 //
 // Input line (k=v tokens, all byte strings in hex):
 //
-//	fmt=uri|uripost|raw  k=<limit> pre=0|1 file=<hex>
+//	fmt=uri|uripost|raw  k=<limit> pre=0|1 file=<hex> [cfgh=<n>/<hex,hex>]   (cfgh: the provider's `headers` option, strings "[key: value]")
 //	    items=<it;it;…> lead=<pad,pad> per=<pre:post:i1:i2:i3:i4:blank,blank;…> fnl=0|1 trail=<pad> [tbl=<frame>>canon;…]
 //	    it = h:<key>:<val> | r:<uri>:<tag>[:<body>] | f:<tag>:<frame>
 //	    (items/lead/per/fnl/trail are absent on the malformed stream: differential only)
@@ -43,6 +43,7 @@ import (
 	phttp "github.com/yandex/pandora/components/providers/http"
 	"github.com/yandex/pandora/components/providers/http/config"
 	"github.com/yandex/pandora/components/providers/http/decoders/raw"
+	putil "github.com/yandex/pandora/components/providers/http/util"
 	"github.com/yandex/pandora/core"
 	"github.com/yandex/pandora/core/aggregator/netsample"
 	"go.uber.org/zap"
@@ -238,6 +239,8 @@ func classifyErr(err error) string {
 		return "ammoformat"
 	case strings.Contains(s, "invalid payload size line"):
 		return "rawsize"
+	case strings.Contains(s, "ammo size should not be negative"):
+		return "negsize"
 	case strings.Contains(s, "failed to read ammo"):
 		return "shortread"
 	case strings.Contains(s, "no ammo in file"):
@@ -264,12 +267,40 @@ type requester interface {
 	Request() (*http.Request, *netsample.Sample)
 }
 
-func runProvider(dec config.DecoderType, file []byte, k int, preload bool) string {
+// parseCfg decodes "cfgh=<n>/<hex,hex>" into the strings of the `headers` option.
+func parseCfg(s string) []string {
+	if s == "" {
+		return nil
+	}
+	f := strings.SplitN(s, "/", 2)
+	n, _ := strconv.Atoi(f[0])
+	if n == 0 || len(f) != 2 {
+		return nil
+	}
+	var out []string
+	for _, h := range strings.Split(f[1], ",") {
+		out = append(out, string(unhx(h)))
+	}
+	return out
+}
+
+func encCfg(hs []string) string {
+	if len(hs) == 0 {
+		return ""
+	}
+	var b [][]byte
+	for _, h := range hs {
+		b = append(b, []byte(h))
+	}
+	return " cfgh=" + encBlankList(b)
+}
+
+func runProvider(dec config.DecoderType, file []byte, k int, preload bool, headers []string) string {
 	fs := afero.NewMemMapFs()
 	if err := afero.WriteFile(fs, "/ammo", file, 0o644); err != nil {
 		panic(err)
 	}
-	conf := config.Config{Decoder: dec, File: "/ammo", Limit: uint(k), Preload: preload}
+	conf := config.Config{Decoder: dec, File: "/ammo", Limit: uint(k), Preload: preload, Headers: headers}
 	p, err := phttp.NewProvider(fs, conf)
 	if err != nil {
 		return "err=" + classifyErr(err) + " n=0 reqs="
@@ -443,15 +474,16 @@ func c07Run(input string) string {
 		k = 1
 	}
 	pre := kv["pre"] == "1"
+	cfg := parseCfg(kv["cfgh"])
 	switch kv["fmt"] {
 	case "uri":
-		return runProvider(config.DecoderURI, unhx(kv["file"]), k, pre)
+		return runProvider(config.DecoderURI, unhx(kv["file"]), k, pre, cfg)
 	case "uripost":
-		return runProvider(config.DecoderURIPost, unhx(kv["file"]), k, pre)
+		return runProvider(config.DecoderURIPost, unhx(kv["file"]), k, pre, cfg)
 	case "raw":
-		return runProvider(config.DecoderRaw, unhx(kv["file"]), k, pre)
+		return runProvider(config.DecoderRaw, unhx(kv["file"]), k, pre, cfg)
 	case "json":
-		return runProvider(config.DecoderJSONLine, renderJSON(kv), k, pre)
+		return runProvider(config.DecoderJSONLine, renderJSON(kv), k, pre, cfg)
 	}
 	return "err=badinput n=0 reqs="
 }
@@ -471,6 +503,9 @@ func c07Class(input, obs string) string {
 	}
 	if kv["pre"] == "1" {
 		c += "/preload"
+	}
+	if kv["cfgh"] != "" {
+		c += "/headers-option"
 	}
 	if o["err"] != "ok" {
 		c += "/err"
@@ -651,7 +686,10 @@ func randItems(r *rand.Rand, format string, nreq int) []item {
 	return items
 }
 
-func frameTable(frames [][]byte) string {
+// frameTable: what the library (http.ReadRequest via raw.DecodeRequest, then EnrichRequestWithHeaders with the
+// `headers` option) makes of each frame; the Lean model treats a frame as opaque bytes and looks it up here.
+func frameTable(frames [][]byte, cfg []string) string {
+	cfgHeader, cfgErr := putil.DecodeHTTPConfigHeaders(cfg)
 	seen := map[string]bool{}
 	var out []string
 	for _, f := range frames {
@@ -664,9 +702,32 @@ func frameTable(frames [][]byte) string {
 			out = append(out, hx(f)+">!")
 			continue
 		}
+		if cfgErr == nil {
+			putil.EnrichRequestWithHeaders(req, cfgHeader)
+		}
 		out = append(out, hx(f)+">"+canonReq(req))
 	}
 	return strings.Join(out, ";")
+}
+
+// candidateFrames: for the malformed stream the frames of a raw file are not known in advance; every line that
+// starts with an integer n > 0 followed by n available bytes gives a candidate (a superset of what any framing
+// of the file can cut out after a size line).
+func candidateFrames(file []byte) [][]byte {
+	var out [][]byte
+	for i := 0; i < len(file); {
+		j := bytes.IndexByte(file[i:], '\n')
+		if j < 0 {
+			break
+		}
+		line := strings.TrimSpace(string(file[i : i+j]))
+		sz, _, _ := strings.Cut(line, " ")
+		if n, err := strconv.Atoi(sz); err == nil && n > 0 && n <= len(file)-(i+j+1) && len(out) < 64 {
+			out = append(out, file[i+j+1:i+j+1+n])
+		}
+		i += j + 1
+	}
+	return out
 }
 
 func limitFor(nreq int) int {
@@ -687,29 +748,53 @@ func countReqs(items []item) int {
 	return n
 }
 
-func caseLine(format string, items []item, lay layout, pre bool) string {
+func caseLine(format string, items []item, lay layout, pre bool, cfg []string) string {
 	file := render(format, items, lay)
 	p := "0"
 	if pre {
 		p = "1"
 	}
 	s := fmt.Sprintf("fmt=%s k=%d pre=%s file=%s items=%s %s", format, limitFor(countReqs(items)), p, hx(file), encItems(items), encLayout(lay))
+	s += encCfg(cfg)
 	if format == "raw" {
 		var frames [][]byte
 		for _, it := range items {
 			frames = append(frames, it.c)
 		}
-		s += " tbl=" + frameTable(frames)
+		s += " tbl=" + frameTable(frames, cfg)
 	}
 	return s
 }
 
-func malformedLine(format string, file []byte, frames [][]byte, k int) string {
+func malformedLine(format string, file []byte, frames [][]byte, k int, cfg []string) string {
 	s := fmt.Sprintf("fmt=%s k=%d pre=0 file=%s", format, k, hx(file))
+	s += encCfg(cfg)
 	if format == "raw" {
-		s += " tbl=" + frameTable(frames)
+		s += " tbl=" + frameTable(append(frames, candidateFrames(file)...), cfg)
 	}
 	return s
+}
+
+// randCfg: the provider's `headers` option for about a quarter of the cases: keys from the same pool as the file's
+// header lines (so that they collide, also in another letter case, and include Host), distinct canonical keys.
+func randCfg(r *rand.Rand) []string {
+	if r.Intn(4) != 0 {
+		return nil
+	}
+	seen := map[string]bool{}
+	var out []string
+	n := 1 + r.Intn(3)
+	for i := 0; i < n; i++ {
+		k := hkeyPool[r.Intn(len(hkeyPool))]
+		ck := http.CanonicalHeaderKey(k)
+		if seen[ck] {
+			continue
+		}
+		seen[ck] = true
+		v := []string{"cfg", "cfg.example.org", "c v", ""}[r.Intn(4)]
+		out = append(out, "["+string(pad(r, 1, false))+k+":"+string(pad(r, 2, false))+v+"]")
+	}
+	return out
 }
 
 var malformedFixed = map[string][]string{
@@ -729,25 +814,25 @@ func c07Gen(r *rand.Rand, tier string) []string {
 		for _, f := range formats {
 			for fl := 0; fl < 32; fl++ {
 				for n := 1; n <= 6; n++ {
-					for rep := 0; rep < 6; rep++ {
+					for rep := 0; rep < 10; rep++ {
 						items := randItems(r, f, n)
-						out = append(out, caseLine(f, items, randLayout(r, flagsOf(fl), len(items)), rep == 5))
+						out = append(out, caseLine(f, items, randLayout(r, flagsOf(fl), len(items)), rep%5 == 4, randCfg(r)))
 					}
 				}
 			}
 		}
 	} else {
 		for _, f := range formats {
-			for i := 0; i < 260; i++ {
+			for i := 0; i < 500; i++ {
 				items := randItems(r, f, 1+r.Intn(6))
-				out = append(out, caseLine(f, items, randLayout(r, flagsOf(r.Intn(32)), len(items)), r.Intn(6) == 0))
+				out = append(out, caseLine(f, items, randLayout(r, flagsOf(r.Intn(32)), len(items)), r.Intn(6) == 0, randCfg(r)))
 			}
 		}
 	}
 	// 2 the last entry without a final newline, every shape of last item
-	nlast := 60
+	nlast := 150
 	if thorough {
-		nlast = 600
+		nlast = 2000
 	}
 	for i := 0; i < nlast; i++ {
 		f := formats[r.Intn(2)]
@@ -762,24 +847,30 @@ func c07Gen(r *rand.Rand, tier string) []string {
 			}
 		}
 		fl := flagsOf(r.Intn(16))
-		out = append(out, caseLine(f, items, randLayout(r, fl, len(items)), false))
+		out = append(out, caseLine(f, items, randLayout(r, fl, len(items)), false, nil))
 	}
 	// 3 no entries at all (headers / blanks only)
 	for _, f := range formats {
-		out = append(out, caseLine(f, nil, layout{lead: [][]byte{nil, []byte(" ")}, fnl: true}, false))
+		out = append(out, caseLine(f, nil, layout{lead: [][]byte{nil, []byte(" ")}, fnl: true}, false, nil))
 		if f != "raw" {
-			out = append(out, caseLine(f, []item{{kind: 'h', a: []byte("A"), b: []byte("b")}}, layout{fnl: true}, false))
+			out = append(out, caseLine(f, []item{{kind: 'h', a: []byte("A"), b: []byte("b")}}, layout{fnl: true}, false, nil))
 		}
 	}
 	// 4 malformed stream: fixed witnesses + mutations of well-formed files (differential only)
 	for _, f := range formats {
 		for _, s := range malformedFixed[f] {
-			out = append(out, malformedLine(f, []byte(s), nil, 4))
+			out = append(out, malformedLine(f, []byte(s), nil, 4, nil))
 		}
 	}
-	nmut := 200
+	// a malformed `headers` option fails NewProvider whatever the file holds
+	for _, f := range formats {
+		for _, h := range [][]string{{"[A b]"}, {"[X-A: v]", "[: x]"}, {"A: b"}, {"[A: b]", "[a: c]"}} {
+			out = append(out, malformedLine(f, []byte(map[string]string{"uri": "/a\n", "uripost": "0 /a\n", "raw": "16 t\nGET / HTTP/1.0\n\n"}[f]), nil, 3, h))
+		}
+	}
+	nmut := 800
 	if thorough {
-		nmut = 4000
+		nmut = 12000
 	}
 	for i := 0; i < nmut; i++ {
 		f := formats[r.Intn(3)]
@@ -819,12 +910,28 @@ func c07Gen(r *rand.Rand, tier string) []string {
 				file = append(append(append([]byte{}, file[:q]...), file[p:q]...), file[q:]...)
 			}
 		}
-		out = append(out, malformedLine(f, file, frames, limitFor(len(items))))
+		out = append(out, malformedLine(f, file, frames, limitFor(len(items)), nil))
+	}
+	// 6 bodies / frames larger than the decoders' read chunk (1 MiB): readSized assembles them chunk-wise
+	bigSizes := []int{1<<20 + 5}
+	if thorough {
+		bigSizes = []int{1 << 20, 1<<20 + 1, 2 << 20, 5<<19 + 7}
+	}
+	for i, n := range bigSizes {
+		body := make([]byte, n)
+		for j := range body {
+			body[j] = byte(r.Intn(256))
+		}
+		items := []item{{kind: 'r', a: []byte("/big"), b: []byte("big tag"), c: body}, {kind: 'r', a: []byte("/b"), c: []byte("x\n")}}
+		out = append(out, caseLine("uripost", items, layout{fnl: i%2 == 0}, i%2 == 1, nil))
+		frame := append([]byte("POST /big HTTP/1.1\r\nHost: h\r\nContent-Length: "+strconv.Itoa(n)+"\r\n\r\n"), body...)
+		fitems := []item{{kind: 'f', b: []byte("big tag"), c: frame}, {kind: 'f', c: []byte("GET / HTTP/1.0\r\n\r\n")}}
+		out = append(out, caseLine("raw", fitems, layout{fnl: true}, i%2 == 0, nil))
 	}
 	// 5 http/json: entity lists in three layouts
-	nj := 150
+	nj := 400
 	if thorough {
-		nj = 2500
+		nj = 6000
 	}
 	for i := 0; i < nj; i++ {
 		n := 1 + r.Intn(6)
@@ -862,7 +969,7 @@ func c07Gen(r *rand.Rand, tier string) []string {
 		}
 		mode := []string{"line", "pretty", "array"}[r.Intn(3)]
 		out = append(out, fmt.Sprintf("fmt=json k=%d pre=%d mode=%s sep=%d omit=%d ord=%d fnl=%d ents=%s",
-			limitFor(n), map[bool]int{true: 1, false: 0}[r.Intn(6) == 0], mode, r.Intn(len(jsonSeps)), r.Intn(2), r.Intn(3), r.Intn(2), encEnts(es)))
+			limitFor(n), map[bool]int{true: 1, false: 0}[r.Intn(6) == 0], mode, r.Intn(len(jsonSeps)), r.Intn(2), r.Intn(3), r.Intn(2), encEnts(es))+encCfg(randCfg(r)))
 	}
 	return out
 }
